@@ -110,6 +110,9 @@ pub struct MmCase {
     pub bsize: usize,
     pub ent: u8,
     pub salt: u64,
+    /// both operands are the same buffer (only when m = n, so that the stored lengths agree)
+    #[serde(default)]
+    pub alias: bool,
 }
 
 const MM_SUB: [&str; 3] = ["matmul", "blocked", "xtx"];
@@ -122,7 +125,8 @@ pub fn check_mm(ctx: &mut Ctx, c: &MmCase) -> R {
     let (m, l) = (c.m, c.l);
     let (n, ta, tb) = if c.entry == 2 { (c.m, true, false) } else { (c.n, c.ta, c.tb) };
     let a = operand(c.ent, c.salt, 0, m * l);
-    let b = if c.entry == 2 { a.clone() } else { operand(c.ent, c.salt, 1, l * n) };
+    let alias = c.alias && c.entry != 2 && c.m == c.n;
+    let b = if c.entry == 2 || alias { a.clone() } else { operand(c.ent, c.salt, 1, l * n) };
     let (rows_a, rows_b) = (if ta { l } else { m }, if tb { n } else { l });
     let fl = flags(ta, tb);
     let nontrivial = if c.entry == 2 { m.min(l) >= 2 && m != l } else { m.min(l).min(n) >= 2 && !(m == l && l == n) };
@@ -130,6 +134,9 @@ pub fn check_mm(ctx: &mut Ctx, c: &MmCase) -> R {
     if c.entry == 1 {
         let mx = m.max(l).max(n);
         ctx.label(sub, if c.bsize == 1 { "bsize=1" } else if c.bsize >= mx { "bsize>=max" } else if l % c.bsize == 0 && n % c.bsize == 0 { "bsize-divides" } else { "bsize-ragged" });
+    }
+    if alias {
+        ctx.label(sub, "same-buffer-twice");
     }
     ctx.sample(sub, || json!(c));
     let (name, sigbase) = match c.entry {
@@ -150,6 +157,8 @@ pub fn check_mm(ctx: &mut Ctx, c: &MmCase) -> R {
     let (entry, bsize) = (c.entry, c.bsize);
     let (a2, b2) = (a.clone(), b.clone());
     let got = match catch(move || match entry {
+        0 if alias => matmul(&a2, &a2, rows_a, rows_b, ta, tb),
+        1 if alias => matmul_blocked(&a2, &a2, rows_a, rows_b, ta, tb, bsize),
         0 => matmul(&a2, &b2, rows_a, rows_b, ta, tb),
         1 => matmul_blocked(&a2, &b2, rows_a, rows_b, ta, tb, bsize),
         _ => xtx(&a2, rows_a),
@@ -159,7 +168,7 @@ pub fn check_mm(ctx: &mut Ctx, c: &MmCase) -> R {
     };
     let (bad, worst) = compare(&got, &a, &b, m, l, n, ta, tb, c.ent < 2);
     if let Some(what) = bad {
-        return fail(format!("{}/value", sigbase), format!("{}: {} [entries kind {}, salt {}]", desc, what, c.ent, c.salt));
+        return fail(format!("{}/value", sigbase), format!("{}{}: {} [entries kind {}, salt {}]", desc, if alias { " with the same buffer as both operands" } else { "" }, what, c.ent, c.salt));
     }
     if c.ent >= 2 {
         ctx.worst(&format!("{}/real/{}", name, if l < 8 { "l<8" } else { "l>=8" }), worst);
@@ -183,6 +192,10 @@ pub struct DotCase {
     pub n: usize,
     pub ent: u8,
     pub salt: u64,
+    /// other is the very same object as self (Matrix·Matrix and Vector·Vector with m = n; the owned
+    /// forms pass a clone of it)
+    #[serde(default)]
+    pub alias: bool,
 }
 
 const KINDS: [&str; 4] = ["Matrix.Matrix", "Matrix.Vector", "Vector.Matrix", "Vector.Vector"];
@@ -212,8 +225,18 @@ macro_rules! call_meth {
 }
 
 /// run one trait call; result flattened to (data, Some(shape) for Matrix results)
-fn run_dot(kind: u8, meth: u8, own: u8, a: Vec<f64>, ra: usize, b: Vec<f64>, rb: usize) -> Result<(Vec<f64>, Option<(usize, usize)>), String> {
+fn run_dot(kind: u8, meth: u8, own: u8, a: Vec<f64>, ra: usize, b: Vec<f64>, rb: usize, alias: bool) -> Result<(Vec<f64>, Option<(usize, usize)>), String> {
     catch(move || match kind {
+        0 if alias && ra == rb => {
+            let x = Matrix::new(a.clone(), ra as i32, (a.len() / ra) as i32);
+            let r = call_meth!(Matrix, meth, own, x, x);
+            (r.data.v.clone(), Some((r.nrows, r.ncols)))
+        }
+        3 if alias => {
+            let x = Vector::new(a);
+            let r = call_meth!(f64, meth, own, x, x);
+            (vec![r], None)
+        }
         0 => {
             let (x, y) = (Matrix::new(a.clone(), ra as i32, (a.len() / ra) as i32), Matrix::new(b.clone(), rb as i32, (b.len() / rb) as i32));
             let r = call_meth!(Matrix, meth, own, x, y);
@@ -249,8 +272,10 @@ pub fn check_dot(ctx: &mut Ctx, c: &DotCase) -> R {
     let ta = c.meth & 1 == 1 && matches!(c.kind, 0 | 1);
     let tb = c.meth & 2 == 2 && matches!(c.kind, 0 | 2);
     let a = operand(c.ent, c.salt, 0, m * l);
-    let b = operand(c.ent, c.salt, 1, l * n);
     let (rows_a, rows_b) = (if ta { l } else { m }, if tb { n } else { l });
+    // the same object on both sides needs the same stored shape
+    let alias = c.alias && m == n && ((c.kind == 0 && rows_a == rows_b) || c.kind == 3);
+    let b = if alias { a.clone() } else { operand(c.ent, c.salt, 1, l * n) };
     let free: Vec<usize> = match c.kind {
         0 => vec![m, l, n],
         1 => vec![m, l],
@@ -261,13 +286,16 @@ pub fn check_dot(ctx: &mut Ctx, c: &DotCase) -> R {
     let (kname, mname) = (KINDS[c.kind as usize], METHS[c.meth as usize]);
     ctx.case("dot", &format!("{}/{}/{}", kname, mname, shape_class(m, l, n)), nontrivial, Hx::new().json(c).finish());
     ctx.label("dot", &format!("own={}", c.own));
+    if alias {
+        ctx.label("dot", "self-with-itself");
+    }
     ctx.sample("dot", || json!(c));
     let sig = |t: &str| format!("C05/Dot/{}/{}/{}", kname, mname, t);
     let desc = format!(
         "{} {} (ownership form {}), self stored {}x{}, other stored {}x{}, product {}x{}",
         kname, mname, c.own, rows_a, m * l / rows_a, rows_b, l * n / rows_b, m, n
     );
-    let (got, shape) = match run_dot(c.kind, c.meth, c.own, a.clone(), rows_a, b.clone(), rows_b) {
+    let (got, shape) = match run_dot(c.kind, c.meth, c.own, a.clone(), rows_a, b.clone(), rows_b, alias) {
         Ok(t) => t,
         Err(msg) => return fail(sig("panic"), format!("{}: panicked on conformable shapes: {}", desc, msg)),
     };
@@ -341,7 +369,7 @@ pub fn check_nonconf(ctx: &mut Ctx, c: &NcCase) -> R {
     let r: Result<usize, String> = match entry {
         0 => catch(move || matmul(&a, &b, ra, rb, ta, tb).len()),
         1 => catch(move || matmul_blocked(&a, &b, ra, rb, ta, tb, bsize).len()),
-        e => run_dot(e - 2, meth, c.own, a, ra, b, if b_is_vec { 1 } else { rb }).map(|(d, _)| d.len()),
+        e => run_dot(e - 2, meth, c.own, a, ra, b, if b_is_vec { 1 } else { rb }, false).map(|(d, _)| d.len()),
     };
     match r {
         Err(_) => Ok(()),
@@ -361,7 +389,7 @@ pub fn check_nonconf(ctx: &mut Ctx, c: &NcCase) -> R {
 pub fn run(ctx: &mut Ctx) {
     ctx.rule = "op(A) is m x l and op(B) is l x n. All (m, l, n) in 1..=9^3 x 4 flag combinations are enumerated with small-integer entries \
 for matmul, matmul_blocked (every block size 1..=2 max(m,l,n)) and every Dot method / operand kind / ownership form; xtx for all k, c in 1..=9; \
-then random shapes up to 64 (thorough 128) with real entries. Non-conformable: all stored shapes in 1..=5^4 x 4 flags whose inner dimensions \
+then random shapes up to 64 (thorough 128) with real entries. Wherever m = n the product is also taken with the very same buffer / object as both operands (every flag combination; Dot: self with itself), in a quarter of the random matmul and Dot cases m = n is forced for that purpose. Non-conformable: all stored shapes in 1..=5^4 x 4 flags whose inner dimensions \
 differ, for every entry point, plus random larger ones built as inner ± 1, a multiple, or unrelated. A case is non-trivial when every free \
 dimension is >= 2 and they are not all equal (square inputs hide shape errors); every non-conformable case is non-trivial. \
 Distinct by (entry point, shapes, flags, block size, ownership, entries)."
@@ -380,24 +408,34 @@ Distinct by (entry point, shapes, flags, block size, ownership, entries)."
                 for fl in 0u8..4 {
                     let (ta, tb) = (fl & 1 == 1, fl & 2 == 2);
                     for ent in [0u8, 1] {
-                        ctx.check_one("matmul", &MmCase { entry: 0, m, l, n, ta, tb, bsize: 1, ent, salt: (m * 100 + l * 10 + n) as u64 }, check_mm);
+                        ctx.check_one("matmul", &MmCase { entry: 0, m, l, n, ta, tb, bsize: 1, ent, salt: (m * 100 + l * 10 + n) as u64, alias: false }, check_mm);
+                        if m == n {
+                            ctx.check_one("matmul", &MmCase { entry: 0, m, l, n, ta, tb, bsize: 1, ent, salt: (m * 100 + l * 10 + n) as u64, alias: true }, check_mm);
+                        }
                     }
                     let mx = m.max(l).max(n);
                     for bsize in 1..=2 * mx {
                         if all_bs || bsize == 1 || bsize == mx || bsize == 2 * mx {
-                            ctx.check_one("blocked", &MmCase { entry: 1, m, l, n, ta, tb, bsize, ent: 0, salt: 0 }, check_mm);
+                            ctx.check_one("blocked", &MmCase { entry: 1, m, l, n, ta, tb, bsize, ent: 0, salt: 0, alias: false }, check_mm);
+                            if m == n {
+                                ctx.check_one("blocked", &MmCase { entry: 1, m, l, n, ta, tb, bsize, ent: 0, salt: 0, alias: true }, check_mm);
+                            }
                         }
                     }
                     for own in 0u8..4 {
-                        ctx.check_one("dot", &DotCase { kind: 0, meth: fl, own, m, l, n, ent: 0, salt: 0 }, check_dot);
+                        ctx.check_one("dot", &DotCase { kind: 0, meth: fl, own, m, l, n, ent: 0, salt: 0, alias: false }, check_dot);
+                        if m == n {
+                            ctx.check_one("dot", &DotCase { kind: 0, meth: fl, own, m, l, n, ent: 0, salt: 0, alias: true }, check_dot);
+                        }
                         if n == 1 {
-                            ctx.check_one("dot", &DotCase { kind: 1, meth: fl, own, m, l, n, ent: 0, salt: 0 }, check_dot);
+                            ctx.check_one("dot", &DotCase { kind: 1, meth: fl, own, m, l, n, ent: 0, salt: 0, alias: false }, check_dot);
                         }
                         if m == 1 {
-                            ctx.check_one("dot", &DotCase { kind: 2, meth: fl, own, m, l, n, ent: 0, salt: 0 }, check_dot);
+                            ctx.check_one("dot", &DotCase { kind: 2, meth: fl, own, m, l, n, ent: 0, salt: 0, alias: false }, check_dot);
                         }
                         if m == 1 && n == 1 {
-                            ctx.check_one("dot", &DotCase { kind: 3, meth: fl, own, m, l, n, ent: 0, salt: 0 }, check_dot);
+                            ctx.check_one("dot", &DotCase { kind: 3, meth: fl, own, m, l, n, ent: 0, salt: 0, alias: false }, check_dot);
+                            ctx.check_one("dot", &DotCase { kind: 3, meth: fl, own, m, l, n, ent: 0, salt: 0, alias: true }, check_dot);
                         }
                     }
                 }
@@ -407,7 +445,7 @@ Distinct by (entry point, shapes, flags, block size, ownership, entries)."
     for k in 1usize..=9 {
         for cdim in 1usize..=9 {
             for ent in [0u8, 1] {
-                ctx.check_one("xtx", &MmCase { entry: 2, m: cdim, l: k, n: cdim, ta: true, tb: false, bsize: 1, ent, salt: (k * 10 + cdim) as u64 }, check_mm);
+                ctx.check_one("xtx", &MmCase { entry: 2, m: cdim, l: k, n: cdim, ta: true, tb: false, bsize: 1, ent, salt: (k * 10 + cdim) as u64, alias: false }, check_mm);
             }
         }
     }
@@ -451,7 +489,10 @@ Distinct by (entry point, shapes, flags, block size, ownership, entries)."
         "matmul",
         nrand,
         16,
-        || (1usize..=maxdim, 1usize..=maxdim, 1usize..=maxdim, any::<bool>(), any::<bool>(), any::<u64>()).prop_map(|(m, l, n, ta, tb, salt)| MmCase { entry: 0, m, l, n, ta, tb, bsize: 1, ent: [2, 2, 2, 3, 4][(salt % 5) as usize], salt }),
+        || (1usize..=maxdim, 1usize..=maxdim, 1usize..=maxdim, any::<bool>(), any::<bool>(), any::<u64>()).prop_map(|(m, l, n, ta, tb, salt)| {
+            let alias = (salt >> 8) % 4 == 0;
+            MmCase { entry: 0, m, l, n: if alias { m } else { n }, ta, tb, bsize: 1, ent: [2, 2, 2, 3, 4][(salt % 5) as usize], salt, alias }
+        }),
         check_mm,
     );
     ctx.run_prop_par(
@@ -469,6 +510,7 @@ Distinct by (entry point, shapes, flags, block size, ownership, entries)."
                 bsize: 1 + bs % (2 * m.max(l).max(n)),
                 ent: [2, 2, 2, 3, 4][(salt % 5) as usize],
                 salt,
+                alias: m == n,
             })
         },
         check_mm,
@@ -477,7 +519,7 @@ Distinct by (entry point, shapes, flags, block size, ownership, entries)."
         "xtx",
         nrand / 4,
         8,
-        || (1usize..=maxdim, 1usize..=maxdim, any::<u64>()).prop_map(|(k, cdim, salt)| MmCase { entry: 2, m: cdim, l: k, n: cdim, ta: true, tb: false, bsize: 1, ent: [2, 2, 2, 3, 4][(salt % 5) as usize], salt }),
+        || (1usize..=maxdim, 1usize..=maxdim, any::<u64>()).prop_map(|(k, cdim, salt)| MmCase { entry: 2, m: cdim, l: k, n: cdim, ta: true, tb: false, bsize: 1, ent: [2, 2, 2, 3, 4][(salt % 5) as usize], salt, alias: false }),
         check_mm,
     );
     ctx.run_prop_par(
@@ -494,6 +536,13 @@ Distinct by (entry point, shapes, flags, block size, ownership, entries)."
                 n: if matches!(kind, 1 | 3) { 1 } else { n },
                 ent: [2, 2, 2, 3, 4][(salt % 5) as usize],
                 salt,
+                alias: (salt >> 8) % 4 == 0,
+            })
+            .prop_map(|mut c| {
+                if c.alias && c.kind == 0 {
+                    c.n = c.m;
+                }
+                c
             })
         },
         check_dot,
